@@ -2,6 +2,7 @@ import HranoModel.Lemmas.Csv
 import HranoModel.Lemmas.Fixed
 import HranoModel.Lemmas.Sort
 import HranoModel.Model.App
+import HranoModel.Lemmas.Number
 /-!
 C13 — CSV exports are lossless and machine-readable.
 
@@ -74,6 +75,15 @@ theorem amount_fixed_precision (p : Nat) (q : Q) :
     fmtFixed p q = (if q.num < 0 then [45] else []) ++ Bytes.natDigits (roundedAt p q / 10 ^ p)
       ++ (if p == 0 then [] else 46 :: Bytes.natPad p (roundedAt p q % 10 ^ p)) := by
   simp [fmtFixed, fixedDigits, List.append_assoc]
+
+/-- **the amount column is machine-readable**: the number reader (the same grammar a CSV consumer's float parser accepts)
+    reads the printed amount to exactly the printed value `±k / 10^p`, for both precisions the exports use -/
+theorem amount_reads_back (q : Q) :
+    (roundedAt Facts.csvLogPrecision q < 10 ^ (308 + Facts.csvLogPrecision) →
+      parseFloat (fmtFixed Facts.csvLogPrecision q) = .value (printedValue Facts.csvLogPrecision q))
+    ∧ (roundedAt Facts.csvDbPrecision q < 10 ^ (308 + Facts.csvDbPrecision) →
+      parseFloat (fmtFixed Facts.csvDbPrecision q) = .value (printedValue Facts.csvDbPrecision q)) :=
+  ⟨fun h => parseFloat_fmtFixed _ q (by decide) (by decide) h, fun h => parseFloat_fmtFixed _ q (by decide) (by decide) h⟩
 
 /-! non-vacuity: names with a comma, quotes, CR, a leading blank and non-ASCII bytes -/
 example : Csv.read sep ([[[97, 44, 98], [34, 113, 34], [50]], [[32, 120], [13], [0xD0, 0xBF]]].map csvRecord).flatten
